@@ -13,6 +13,10 @@
    CLIENT content content2 poll seed accept chunk...  -> events | before | after
    SERVER numhex                    -> events | stdouthex
    SYNC                             -> server_sync client_sync ping_frame
+   PYCMD sh|py|cmd|ps pyhex vnumhex lennumhex -> hex of the remote command line (ssh.py:137-189; pyhex "-" = no --python)
+   SHWORDS hex                      -> hex,hex,... | _ | NONE  (words of a POSIX shell command line, fragment)
+   PSWORDS hex                      -> hex,hex,... | _ | NONE  (words of a PowerShell line of bare words)
+   QUOTE hex                        -> hex                    (shlex.quote)
    tbl/mods: namehex:datahex,...    opts: keyhex=B1|B0|N|I<numhex>|S<hex>,...
    pre: namehex,...                 poll/accept: - | numhex        seed: - | S<hex>  *)
 let split_list s = if s = "_" then [] else String.split_on_char ',' s
@@ -95,6 +99,12 @@ let handle = function
   | ["SERVER"; lbs] ->
       let t = server_main_start (z_of_numhex lbs) in
       Printf.sprintf "%s | %s" (String.concat "," (List.map sev_str t)) (hex_of_bytes (stdout_of t))
+  | ["PYCMD"; k; py; v; n] ->
+      let kind = (match k with "sh" -> KSh | "py" -> KPy | "cmd" -> KCmd | "ps" -> KPs | _ -> failwith ("bad kind " ^ k)) in
+      hex_of_bytes (pycmd kind (bytes_of_hex py) (n_of_numhex v) (n_of_numhex n))
+  | ["SHWORDS"; h] -> (match sh_words (bytes_of_hex h) with Some l -> hexlist l | None -> "NONE")
+  | ["PSWORDS"; h] -> (match ps_words (bytes_of_hex h) with Some l -> hexlist l | None -> "NONE")
+  | ["QUOTE"; h] -> hex_of_bytes (sh_quote (bytes_of_hex h))
   | ["SYNC"] -> Printf.sprintf "%s %s %s" (hex_of_bytes server_sync) (hex_of_bytes client_sync) (hex_of_bytes ping_frame)
   | _ -> "ERROR bad command"
 let () = main_loop handle
